@@ -237,7 +237,83 @@ fn file_output(ctx: &mut Ctx, frame: &[u8], accesses: &[String], idx: u64) -> Ve
     out
 }
 
+/// filter-mode output: a stream of generated frames (also truncated / corrupted ones) run through a filter
+/// program that only reads, then selects everything: the output stream must be the input stream
+fn filter_output(ctx: &mut Ctx, bytes: &[u8]) -> Vec<Violation> {
+    use super::super::e2e::{self, Opts, Stdin};
+    use super::super::pcapfile::{fill, GHdr, PcapFile, Rec, MAGIC_NS, MAGIC_US};
+    let mut c = Choices::new(bytes);
+    let n = 1 + c.below(16);
+    let mut recs = Vec::new();
+    let mut first_chain = None;
+    for i in 0..n {
+        let fb = fill(c.u64(), 400);
+        let mut fc = Choices::new(&fb);
+        let f = gen_frame(&mut fc);
+        if i == 0 {
+            first_chain = Some(parse_chain(&f.bytes).0);
+        }
+        let wirelen = f.bytes.len() as u32 + c.below(100) as u32;
+        recs.push(Rec { sec: c.u32(), usec: c.u32(), wirelen, data: f.bytes });
+    }
+    let chain = first_chain.unwrap_or_default();
+    let mut body = String::new();
+    let steps = 1 + c.below(8);
+    for _ in 0..steps {
+        let a = gen_access(&mut c, &chain);
+        // accesses that can raise a runtime error would end the run: keep the ones that yield values or error objects
+        if a.text.starts_with("($0).eth") || a.text.starts_with("str(") || a.text.starts_with('$') {
+            body.push_str(&format!("  {};\n", a.text));
+        }
+    }
+    let file = PcapFile { hdr: GHdr { magic: if c.bool() { MAGIC_US } else { MAGIC_NS }, major: 2, minor: 4, thiszone: c.u32() as i32, sigfigs: 0, snaplen: 262144, linktype: 1 }, recs };
+    let input = file.bytes();
+    let src = format!("@ {{\n{}}}\n@ true\n", body);
+    ctx.case(hash_bytes(&input) ^ hash_bytes(src.as_bytes()), n >= 2 && !body.is_empty());
+    ctx.class("filter-output");
+    guard("filter-output", "src", &src);
+    let path = e2e::script_file("c15-filter.p2", &src);
+    let r = e2e::run(Opts::new(vec![path]).stdin(Stdin::Bytes(input.clone())));
+    let case = json!({"filter_output": true, "src": src, "stream": hex(&input)});
+    judge_filter_output(ctx, &r, &src, &input, &case)
+}
+
+fn judge_filter_output(ctx: &mut Ctx, r: &super::super::e2e::Run, src: &str, input: &[u8], case: &Value) -> Vec<Violation> {
+    let mut out = Vec::new();
+    if r.spawn_error.is_some() || r.timed_out {
+        ctx.infra("C15: filter run failed to spawn or timed out".to_string());
+        return out;
+    }
+    if let Some(c) = r.crashed() {
+        out.push(Violation::new("filter-output", super::super::e2e::crash_signature(&c), format!("{}\n{}", c, src), case.clone()));
+        return out;
+    }
+    if !r.stderr.is_empty() {
+        // a runtime error ends the stream early: outside this property
+        ctx.class("filter-output:runtime-error");
+        return out;
+    }
+    if r.stdout != input {
+        let d = r.stdout.iter().zip(input.iter()).position(|(a, b)| a != b).unwrap_or(r.stdout.len().min(input.len()));
+        out.push(Violation::new(
+            "filter-output",
+            if r.stdout.len() == input.len() { "filter-output:bytes-altered" } else { "filter-output:length-differs" },
+            format!("the filter program only reads, yet its output stream ({} bytes) differs from the input ({} bytes) at byte {}\n{}", r.stdout.len(), input.len(), d, src),
+            case.clone(),
+        ));
+    }
+    out
+}
+
 pub fn run(ctx: &mut Ctx) {
+    {
+        set_shrink_iters(60);
+        let e2e_shards = 4.min(ctx.nshards);
+        if ctx.shard < e2e_shards {
+            drive(ctx, "filter-output", ctx.tier.pick(320, 12_000) / e2e_shards as u32, 32, 300, |ctx, bytes| filter_output(ctx, bytes));
+        }
+        set_shrink_iters(3000);
+    }
     let n = ctx.nshards as u32;
     drive(ctx, "histories", ctx.tier.pick(60_000, 2_000_000) / n, 24, 400, |ctx, bytes| {
         let mut c = Choices::new(bytes);
@@ -311,6 +387,16 @@ pub fn run(ctx: &mut Ctx) {
 }
 
 pub fn replay(section: &str, case: &Value, ctx: &mut Ctx) {
+    if case.get("filter_output").is_some() {
+        use super::super::e2e::{self, Opts, Stdin};
+        let src = case["src"].as_str().unwrap_or("");
+        let input = unhex(case["stream"].as_str().unwrap_or(""));
+        let r = e2e::run(Opts::new(vec![e2e::script_file("c15-filter.p2", src)]).stdin(Stdin::Bytes(input.clone())));
+        for v in judge_filter_output(ctx, &r, src, &input, case) {
+            ctx.report(v);
+        }
+        return;
+    }
     let frame = unhex(case["frame"].as_str().unwrap_or(""));
     let accesses: Vec<String> = case["accesses"].as_array().map(|a| a.iter().filter_map(|x| x.as_str().map(|s| s.to_string())).collect()).unwrap_or_default();
     let vs = if case.get("file").is_some() { file_output(ctx, &frame, &accesses, 0) } else { check_history(ctx, section, &frame, &accesses) };
